@@ -266,6 +266,8 @@ def offsets_table(sysd):
         # The median is a real number for the parser: some tables spell it in exponent or fixed notation
         med = {"exp": "%.12e" % o, "fix": "%.3f" % o}.get(sysd.get("_offfmt"), "%d" % o)
         txt += "%-10d %-20s %-20s %-20.6f %-20.6f\n" % (r, "node%d" % l, med, 500.25 * (r + 1) - 3 * o, 3.5 + r)
+        if sysd.get("_blankline") and r == 0:
+            txt += "   \t \n"          # a line with blanks only (hand-edited tables, CRLF files)
     return txt
 
 
@@ -638,6 +640,10 @@ def main(pid, tier):
             c["_offfmt"] = "exp"
         elif i % 4 == 3:
             c["_offfmt"] = "fix"
+    #  _blankline: a whitespace-only line after the first row of the offset table
+    for i, c in enumerate(cases):
+        if i % 5 == 3:
+            c["_blankline"] = True
     #  _emptypart: an additional stream that is not a thread and has no events
     for i, c in enumerate(cases):
         if i % 6 == 4:
